@@ -1,0 +1,24 @@
+//go:build verif
+
+package transport
+
+import "sync/atomic"
+
+// verifYieldFn is the schedule-perturbation callback installed by the verification harness.
+var verifYieldFn atomic.Pointer[func(site string)]
+
+// SetVerifYield installs (or, with nil, removes) the function called at every verifYield site.
+func SetVerifYield(f func(site string)) {
+	if f == nil {
+		verifYieldFn.Store(nil)
+		return
+	}
+	verifYieldFn.Store(&f)
+}
+
+// verifYield marks a point where the verification harness may perturb the schedule.
+func verifYield(site string) {
+	if f := verifYieldFn.Load(); f != nil {
+		(*f)(site)
+	}
+}
